@@ -339,6 +339,9 @@ def derived_checks(r, m, cfg, fresh, extra):
     r.true("model == freshly constructed model", bool(m == fresh) and bool(fresh == m), info=repr(m) + " vs " + repr(fresh), **extra)
     r.close("variogram(lags) == fresh", m.variogram(LAGS), fresh.variogram(LAGS), rtol=1e-12, atol=1e-14, **extra)
     r.close("cor(lags) == fresh", m.cor(LAGS), fresh.cor(LAGS), rtol=1e-12, atol=1e-14, **extra)
+    if extra.get("opk") in ("dim", "rescale", "init"):
+        kk = np.array([0.0, 0.4, 2.0])
+        r.close("spectral_density == fresh", m.spectral_density(kk), fresh.spectral_density(kk), rtol=1e-12, atol=1e-300, **extra)
     rng = np.random.RandomState(3)
     if cfg["latlon"]:
         pos = np.array([[10.0, -40.0, 80.0], [20.0, 170.0, -100.0]] + ([[0.0, 1.0, 2.5]] if cfg["temporal"] else []))
